@@ -388,6 +388,27 @@ pub fn log_to(logger: &dyn Log, level: Level, target: &str, msg: &str) {
     );
 }
 
+/// A record whose message logs `inner` (through the same logger) while it is being formatted.
+pub fn log_nested(logger: &dyn Log, inner: &str, msg: &str) {
+    struct Nested<'a>(&'a dyn Log, &'a str, &'a str);
+    impl std::fmt::Display for Nested<'_> {
+        fn fmt(&self, f: &mut std::fmt::Formatter<'_>) -> std::fmt::Result {
+            log_info(self.0, self.1);
+            write!(f, "{}", self.2)
+        }
+    }
+    logger.log(
+        &Record::builder()
+            .args(format_args!("{}", Nested(logger, inner, msg)))
+            .level(Level::Info)
+            .target("app")
+            .module_path(Some("app"))
+            .file(Some("src/h.rs"))
+            .line(Some(7))
+            .build(),
+    );
+}
+
 /// A record whose module path is not its target (explicit `target:` in the macros).
 pub fn log_with_module(logger: &dyn Log, level: Level, target: &str, module: Option<&str>, msg: &str) {
     logger.log(
